@@ -635,7 +635,7 @@ def _apply(cls):
 # the rewrites every check must survive (a failure fails the thorough tier)
 GATED = {"unnest-else", "nest-else", "split-guards", "reverse-keywords", "hoist-arguments", "annotate", "log-entry", "extract-constants", "positional-ctor-args",
          "edit-docstrings", "reword-messages", "result-temporary", "alias-self-attributes", "swap-comparisons",
-         "comprehension-to-loop", "split-isinstance", "split-chained-comparisons"}
+         "comprehension-to-loop", "split-isinstance", "split-chained-comparisons", "dict-call"}
 EXTRA.update({"unnest-else": _apply(_ElseUnnester), "nest-else": _apply(_ElseNester), "split-guards": _apply(_GuardSplitter),
               "reverse-keywords": _apply(_KwReverser), "hoist-arguments": _apply(_ArgHoister),
               "annotate": _apply(_Annotator), "log-entry": _apply(_EntryLogger), "extract-constants": _apply(_ConstExtractor), "positional-ctor-args": _apply(_KwToPositional),
